@@ -17,7 +17,7 @@ type legacyHandler struct {
 	eventMgr event.Manager
 
 	rwMutex
-	prevResourceResponse bool
+	prevResourceResponse *bool // nil until the player accepted or declined a resource pack
 	outstandingPacks     *deque.Deque[*Info]
 	pendingPack          *Info
 	appliedPack          *Info
@@ -85,13 +85,13 @@ func (h *legacyHandler) QueueResourcePack(info *Info) error {
 }
 
 // with comments form java code
+//
+// The caller must hold the lock.
 func (h *legacyHandler) tickResourcePackQueue() error {
-	h.Lock()
-	defer h.Unlock()
 	queued, ok := h.outstandingPacks.Front()
 	if ok {
 		// Check if the player declined a resource pack once already
-		if !h.prevResourceResponse {
+		if h.prevResourceResponse != nil && !*h.prevResourceResponse {
 			// If that happened we can flush the queue right away.
 			// Unless its 1.17+ and forced it will come back denied anyway
 			for h.outstandingPacks.Len() > 0 {
@@ -104,7 +104,7 @@ func (h *legacyHandler) tickResourcePackQueue() error {
 					Hash:   queued.Hash,
 					Status: DeclinedResponseStatus,
 				}
-				_, err := h.OnResourcePackResponse(resBundle)
+				_, err := h.handleResponse(resBundle, h.shouldDisconnectForForcePack)
 				if err != nil {
 					return err
 				}
@@ -133,15 +133,32 @@ func (h *legacyHandler) onResourcePackResponse(
 	h.Lock()
 	defer h.Unlock()
 
+	handled, err := h.handleResponse(bundle, shouldDisconnectForForcePack)
+	if !bundle.Status.Intermediate() {
+		err = errors.Join(err, h.tickResourcePackQueue())
+	}
+	return handled, err
+}
+
+// handleResponse processes a single response without advancing the queue.
+// The caller must hold the lock.
+func (h *legacyHandler) handleResponse(
+	bundle *ResponseBundle,
+	shouldDisconnectForForcePack func(e *PlayerResourcePackStatusEvent) bool,
+) (bool, error) {
 	peek := bundle.Status.Intermediate()
-	var queued *Info
+	var queued *Info // nil if the response is for no outstanding pack
 	if peek {
 		queued, _ = h.outstandingPacks.Front()
 	} else {
-		queued = h.outstandingPacks.PopFront()
+		queued, _ = h.outstandingPacks.TryPopFront()
+	}
+	var packInfo Info
+	if queued != nil {
+		packInfo = *queued
 	}
 
-	e := newPlayerResourcePackStatusEvent(h.player, bundle.Status, bundle.ID, *queued)
+	e := newPlayerResourcePackStatusEvent(h.player, bundle.Status, bundle.ID, packInfo)
 	event.FireParallel(h.eventMgr, e, func(e *PlayerResourcePackStatusEvent) {
 		if shouldDisconnectForForcePack(e) {
 			h.player.Disconnect(&component.Translation{
@@ -152,10 +169,12 @@ func (h *legacyHandler) onResourcePackResponse(
 
 	switch bundle.Status {
 	case AcceptedResponseStatus:
-		h.prevResourceResponse = true
+		accepted := true
+		h.prevResourceResponse = &accepted
 		h.pendingPack = queued
 	case DeclinedResponseStatus:
-		h.prevResourceResponse = false
+		declined := false
+		h.prevResourceResponse = &declined
 	case SuccessfulResponseStatus:
 		h.appliedPack = queued
 		h.pendingPack = nil
@@ -169,12 +188,7 @@ func (h *legacyHandler) onResourcePackResponse(
 		}
 	}
 
-	var err error
-	if !peek {
-		err = h.tickResourcePackQueue()
-	}
-	handled, err2 := h.HandleResponseResult(queued, bundle)
-	return handled, errors.Join(err, err2)
+	return h.HandleResponseResult(queued, bundle)
 }
 
 func (h *legacyHandler) HasPackAppliedByHash(hash []byte) bool {
